@@ -178,15 +178,21 @@ package dns
 // Compression pointers are offsets from the start of the message (RFC 1035 4.1.4): every hand-written helper that
 // packs or unpacks a name hands the name codec the message buffer itself - not a sub-slice that starts at the RDATA -
 // and the absolute offset, so offsets entered in the compression map and pointers followed on input mean the same
-// thing everywhere.  (The generated pack/unpack methods are matched structurally: offsets threaded, buffer passed on.)
+// thing everywhere; and the map they hand on is the caller's, also for a name that is not itself compressed (it still
+// is a target for later pointers, which is what the length walk of Len and Truncate counts on).  (The generated
+// pack/unpack methods are matched structurally: offsets threaded, buffer and map passed on.)
 //@ func (*Question).pack [C04]
 //@   callsite "packDomainName" whole: ref(arg1) == ref(msg) && sliceoff(arg1) == sliceoff(msg) && len(arg1) == len(msg) && arg2 == off
+//@   callsite "packDomainName" samemap: arg3.int == compression.int && arg3.ext == compression.ext
 //@ func (RR_Header).packHeader [C04]
 //@   callsite "packDomainName" whole: ref(arg1) == ref(msg) && sliceoff(arg1) == sliceoff(msg) && len(arg1) == len(msg) && arg2 == off
+//@   callsite "packDomainName" samemap: arg3.int == compression.int && arg3.ext == compression.ext
 //@ func packDataDomainNames [C04]
 //@   callsite "packDomainName" whole: ref(arg1) == ref(msg) && sliceoff(arg1) == sliceoff(msg) && len(arg1) == len(msg) && arg2 == off
+//@   callsite "packDomainName" samemap: arg3.int == compression.int && arg3.ext == compression.ext
 //@ func packIPSECGateway [C04]
 //@   callsite "packDomainName" whole: ref(arg1) == ref(msg) && sliceoff(arg1) == sliceoff(msg) && len(arg1) == len(msg) && arg2 == off
+//@   callsite "packDomainName" samemap: arg3.int == compression.int && arg3.ext == compression.ext
 //@ func unpackQuestion [C04]
 //@   callsite "UnpackDomainName" whole: ref(arg0) == ref(msg) && sliceoff(arg0) == sliceoff(msg) && arg1 == off
 //@ func unpackHeader [C04]
